@@ -199,7 +199,7 @@ func runC19(r *mc.Run) {
 	// the tool exploration runs twice: over all dimensions within the deviation bound, and as the FULL product of the
 	// four network switches (check_crl / get_collateral, config x flag) with every other dimension at its default
 	onlySwitches, idPrefix := false, "tool/"
-	switchDims := map[string]bool{"cfg.check_crl": true, "flag.check_crl": true, "cfg.get_collateral": true, "flag.get_collateral": true}
+	switchDims := map[string]bool{"cfg.check_crl": true, "flag.check_crl": true, "cfg.get_collateral": true, "flag.get_collateral": true, "flag.timeout": true}
 	body := func(c *mc.Ctx) {
 		ch := func(name string, n int) int {
 			if onlySwitches && !switchDims[name] {
@@ -239,6 +239,7 @@ func runC19(r *mc.Run) {
 		output := ch("output", 6)
 		// how a value flag is written has no bearing on its meaning: -name=value, -name value, --name=value
 		form := ch("flag-form", 3)
+		tmo := ch("flag.timeout", 4)
 		id := idPrefix + c.ID()
 		if !r.Want(id) {
 			return
@@ -248,7 +249,17 @@ func runC19(r *mc.Run) {
 			allowed[code] = true
 		}
 		args := append([]string{}, inputs[in].args...)
-		args = append(args, "-timeout", "20ms", "-max_retry_delay", "5ms")
+		// the retry budget: a short one by default; zero (one attempt, then the failure is reported) in two spellings
+		switch tmo {
+		case 0:
+			args = append(args, "-timeout", "20ms", "-max_retry_delay", "5ms")
+		case 1:
+			args = append(args, "-timeout=0s", "-max_retry_delay", "5ms")
+		case 2:
+			args = append(args, "-timeout=0", "-max_retry_delay=0")
+		case 3:
+			args = append(args, "-timeout=1ns", "-max_retry_delay=1h")
+		}
 		if local == 1 {
 			args = append(args, "-test_local_getter")
 		}
@@ -568,7 +579,7 @@ func runC19(r *mc.Run) {
 	}
 	r.Explore("tool-invocations", bound, body)
 	onlySwitches, idPrefix = true, "tool-switches/"
-	r.Explore("tool-invocations/network-switches-full-product", 4, body)
+	r.Explore("tool-invocations/network-switches-full-product", 5, body)
 	onlySwitches, idPrefix = false, "tool/"
 
 	// library half: typed errors for fetch failures
